@@ -26,19 +26,35 @@ def model_ns(spec: G.ModelSpec):
     return spec.meta_ns or None
 
 
-def pick_instance(ch: Chooser, spec: G.ModelSpec, free: bool):
+CORE_VALUES = 6
+
+
+def pick_instance(ch: Chooser, spec: G.ModelSpec, free: bool, seed: str | None = None):
+    """free=True: full product over the first CORE_VALUES values of every field (the rest of each alphabet is
+    reached by the deviation-bounded pass, free=False, which offers every value).
+    seed: if given, the first value containing that substring becomes each field's default value (so that
+    documents with that construct are the starting point of the deviation-bounded exploration)."""
     exprs = []
     for f in spec.fields:
         vals = G.field_values(spec, f)
+        if seed:
+            hit = next((v for v in vals if seed in v), None)
+            if hit is not None:
+                vals = [hit] + [v for v in vals if v != hit]
+        if free and len(spec.fields) > 1:
+            vals = vals[:CORE_VALUES]
         exprs.append(vals[ch.choose(len(vals), f"{f.name}.value", free)])
     return exprs
 
 
-def pick_config(ch: Chooser, spec: G.ModelSpec):
+def pick_config(ch: Chooser, spec: G.ModelSpec, full: bool = True):
     indent = ch.pick([None, "  "], "cfg.indent")
-    decl = ch.pick([True, False], "cfg.declaration")
+    decl = ch.pick([True, False], "cfg.declaration") if full else True
     ida = ch.flag("cfg.ignore_default_attributes")
     mns = model_ns(spec) or "urn:m"
+    if not full:
+        ns_map = ch.pick([None, {None: mns}, {"p": mns}], "cfg.ns_map")
+        return dict(indent=indent, xml_declaration=decl, ignore_default_attributes=ida), ns_map
     ns_map = ch.pick([None, {None: mns}, {"p": mns}, {"u": "urn:unused"}, {"xsi": "http://www.w3.org/2001/XMLSchema-instance", "q": "urn:q"},
                       {"": mns}, {None: mns, "x": mns}, {"p": "", "o": "urn:o"}], "cfg.ns_map")
     return dict(indent=indent, xml_declaration=decl, ignore_default_attributes=ida), ns_map
@@ -51,18 +67,24 @@ def classify(spec: G.ModelSpec, exprs, detail: str, stage: str) -> str:
 
 
 @harness("c01.rt")
-def h_rt(ch: Chooser, vec: list, maxf: int, cats=None, free_values: bool = True):
+def h_rt(ch: Chooser, vec: list, maxf: int, cats=None, free_values: bool = True, mode: str = ""):
     spec = G.model_from_vector(vec, maxf, cats)
     model = G.Model(spec)
     try:
-        return _rt(ch, spec, model, free_values)
+        return _rt(ch, spec, model, free_values, mode)
     finally:
         model.release()
 
 
-def _rt(ch, spec, model, free_values):
-    exprs = pick_instance(ch, spec, free_values)
-    cfg, ns_map = pick_config(ch, spec)
+def _rt(ch, spec, model, free_values, mode=""):
+    if mode == "config-only":
+        exprs = [G.field_values(spec, f)[0] for f in spec.fields]
+    else:
+        exprs = pick_instance(ch, spec, free_values)
+    if not free_values and sum(1 for p in ch.points if p[0].endswith(".value") and p[3]) >= 2:
+        # pairs of non-default values are the business of the full-product pass
+        return {"skip": True, "reason": "value pair (covered by the product pass)"}
+    cfg, ns_map = pick_config(ch, spec, full=(mode != "values-x-config"))
     case = {"model": model.source.split("XmlTime\n", 1)[-1].strip(), "instance": model.instance_source(exprs), "config": cfg, "ns_map": repr(ns_map)}
     b = call(lambda: XmlContext().build_recursive(model.root))
     if b[0] == "exc":
@@ -204,8 +226,14 @@ def run(tier: str, seed: int) -> int:
     for v in vecs:
         # pass A: full product of the value alphabets under the default configuration
         tasks.append(("c01.rt", dict(vec=v, maxf=maxf, free_values=True), 0, ()))
-        # pass B: <= dv non-default answers among values and configuration together
-        tasks.append(("c01.rt", dict(vec=v, maxf=maxf, free_values=False), dv, ()))
+        if th:
+            # pass B: <= dv non-default answers among values and the full configuration alphabet together
+            tasks.append(("c01.rt", dict(vec=v, maxf=maxf, free_values=False), dv, ()))
+        else:
+            # pass B (quick): one non-default value x one answer of the reduced configuration alphabet
+            tasks.append(("c01.rt", dict(vec=v, maxf=maxf, free_values=False, mode="values-x-config"), dv, ()))
+            # pass C (quick): default instance x <= dv answers of the full configuration alphabet
+            tasks.append(("c01.rt", dict(vec=v, maxf=maxf, free_values=False, mode="config-only"), dv, ()))
     stats = parallel(tasks, explore_task, chunk=8)
     confirm_violations(stats)
     return finish(
